@@ -87,6 +87,9 @@ func raceStack(st *simcore.Stream, res *simcore.Result, spec string) {
 	if strings.Contains(spec, "p2pke") && p.InnerMTU < 300 {
 		p.InnerMTU = 300
 	}
+	if strings.Contains(spec, "quic") {
+		p.InnerMTU, p.QuicMTU = 1500, 4000
+	}
 	w := stk.NewWorld(st, res, false, spec, p)
 	eps := w.Build(spec)
 	res.Cfg = map[string]any{"stack": spec, "nodes": p.N, "innerMTU": p.InnerMTU, "workers": p.Workers, "gomaxprocs": 8}
